@@ -142,7 +142,7 @@ TabularDataFile& TabularDataFile::operator<<(const Var& x)
 	if (x == "\n" && _row.length() > 0)
 		rowFull = true;
 	else if (x.is(Var::ARRAY))
-		_row = x.array();
+		_row = x.array().clone();
 	else
 		_row << x;
 	if (_row.length() == _columnNames.length() || rowFull)
